@@ -690,15 +690,15 @@ func howMuch(texts []string, x string) string {
 }
 
 func Run(r *mon.Run) {
-	r.Rule = "hsrv.Server in-process on real TLS in seven configurations (directory, unset, single file, missing directory, missing/failing/unparsable template - with % sequences in the configured paths; two more with clients on an IPv6 link-local address, whose text carries a %zone); raw requests carrying printf-looking text ('%' + flags/width/precision/index/verb, '%%', URL escapes such as %20b whose raw form reads as a verb) in path, raw query, c2 parameter, c2 header, Host (also with the escapes a URL's host may carry - %25…, bytes >= 0x80 - and RFC 6874 zoned IPv6 literals), undecodable escapes, /i/{id} and /o/{id}, and refusals naming two such IDs; request-targets also in ABSOLUTE-FORM (scheme://userinfo@host/path?query with every userinfo shape - user@, user:pass@, :pass@, user:@, :@, @ - escapes and escaped verbs inside user and password, scheme/host case variants, zoned IPv6 hosts) for the file handler (echoes the target), the script handler (c2 parameter; callback taken from the target's host) and the stream handlers; after each request a marker line closes the window of operator notices, none of which may contain '%!' and one of which must contain the client text character for character (IDs also accepted in the Go-quoted form the broker prints; an absolute-form target must be there byte for byte as the harness wrote it whenever it is in the URL library's normal form - url.ParseRequestURI(t).String()==t, computed by the harness - and otherwise with its path and query byte for byte and the rest equal up to the spelling of percent-escapes and the case of the scheme). Engine broker: every refusal branch in gate mode with formatting IDs. Engine xerr (gate mode): attached shells of seven shapes (output alone, input alone with failing write / failing flush, both sides with either failing, /io with either failing) whose reader or writer - owned by the harness - fails with a *net.OpError built by the harness (Op, Net, Source, Addr with %zone such as eth0/docker0/sit0/veth…, Err = errno, syscall error or printf-looking text; also wrapped as crypto/tls does, and errors without addresses) for a client host fe80::…%zone: no notice may contain '%!', every notice starts with [client host], and a notice that reports the error (recognised by the client's port number / a token) must contain the error's text byte for byte. Engine rst (only on a machine with a link-local address): hsrv on real TLS bound to the link-local address itself and to [::], clients from the link-local address: reset (SO_LINGER 0) while the server reads /o and /io output (after a burst of output), reset or close while lines are being written to an /i or /io client that does not read (write stuck in full socket buffers), half-closes, with one or both sides attached: no '%!', [client host] prefix, callback ID verbatim, and a notice that names the client's port must contain the client's host:port as net prints it. Engine lit (in-process servers 'directory' and 'single file', notices read at the operator channel): client text that itself contains the LITERAL OUTPUT of fmt's complaints - %!s(MISSING), %!d(string=x), %!(EXTRA int=1), %!(NOVERB), %!(BADWIDTH), %!(BADPREC), %!(BADINDEX), %!v(PANIC=...), %!s(<nil>), bad verbs, nested forms, forms cut off anywhere, made-up '%!' + verb + '(word)' - mixed with ordinary verbs, in every position a client controls: raw query, path (escaped spelling), c2 parameter, c2 header, Host, the bad escape an undecodable query's error text quotes, /i/{id}, /o/{id}, and the two IDs of a refusal; every table entry is used in every position. The oracle is exact there: the notice must contain the client's text character for character, and a '%!' in a notice is an artefact unless it lies inside an occurrence of the client's own text as the client sent it (every occurrence of the case's client texts is taken out of the notice; what is left, the program's wording, must not contain '%!' - so client text that was re-formatted, shortened or 'cleaned' is both an omission and, where a '%!' is left over, an artefact). Engine huge (same servers): client text of 64 KiB ... 1,040,000 bytes (five bands: 64-200 KiB, around 256 KiB, 257-400 KiB, 513-800 KiB, 900 KiB-1,040,000 bytes; the whole request stays below net/http's header limit of 1 MiB, the unchanged program serves up to 1 MiB + 4096 bytes; a position whose escaped spelling is longer on the wire gets as much text as fits) made of printf-looking pieces and running offsets in raw query, path, c2 parameter, c2 header, Host, /i/{id} and /o/{id}: one notice of the window must carry ALL of it, byte for byte. Engine term: the classes of lit and huge and, every fourth case, an ordinary case of engine req, against the REAL PROGRAM on a pty (-serve-files-from a directory), the notices read where the operator sees them - the terminal's text after lib/opshell rendered it (escape sequences interpreted, prompt redraws removed; window closed by a request for a file named after the marker, whose 'File requested' line follows every notice of the requests answered before): same two rules, keys end in @terminal. Engine conf (the CONFIGURATION MATRIX, real program on a pty, 64 / 384 sessions): the statement's 'no notice ever contains formatter artefacts' and the quantifier's 'every call site in the tree that passes a computed string in the format position' also cover the notices that name what the OPERATOR configured, which are produced in main's wiring, lib/opshell and internal/hsrv; every valued option gets text with '%' sequences (%s %d %v %w %[1]d %*d %% %20 100% and the literal complaints %!s(MISSING), %!(EXTRA int=1), %!(NOVERB), %!v(PANIC=…), '%!') - -ctrl-i (missing / missing below a %-directory / below a regular file / empty file / file / directory), -serve-files-from (directory / single file / missing / relative / ../ spelling / symlink / blanks at the edges / empty value), -callback-template (regular / symlink / missing / unparsable / failing / a directory), -log and CURLREVSHELL_LOG (also both), -callback-address (one / two / 24 / with port), -prompt, -listen-address (host:0, host only, localhost, given twice), -tls-certificate-cache (explicit / default / next to the served files / empty) - each option alone, in pairs drawn by index and all at once, with -one-shell / -no-timestamps / -ipv6-one-liners by index, in the four flag spellings (-o v, -o=v, --o v, --o=v); every session that listens gets Tab (Ctrl+I) and Ctrl+J when it has a -ctrl-i, a script request (c2 header with verbs) when it has a template, a file request (escapes and verbs) when it serves files, and an input stream with a formatting ID, then Ctrl+D; every fourth session ends by itself: -print-ctrl-i with a source that cannot / can be converted, -log or CURLREVSHELL_LOG that cannot be opened, a -listen-address with a '%' port or '%' zone, a certificate cache below a regular file, -icanhazip without network, a switch with a '%' value, an undefined flag with '%' in its name, and -h / --help / a bad flag with the program started through a link whose name carries '%'.  The whole text of the terminal (read to its end: a sentinel typed after the program has ended is echoed behind everything written before) is judged by the two rules of engine lit: a '%!' is an artefact unless it lies inside an occurrence of a configured value (or a path component of one, or the case's client text) as it was given - keys formatter-artefact:conf-<notice>@terminal; and every line that carries the fixed wording announcing a configured value ('Warning: Ctrl+I file ', 'Error working out what to insert: ', 'Inserting ', 'Inserted ', 'Error generating Ctrl+I file: ', 'To get files from ', 'Could not open ', 'Warning: Template file ', 'Error reading template: ', 'Error opening logfile ', 'Error setting up HTTPS service: ', 'invalid boolean value ', 'flag provided but not defined: ', 'Usage: '; one of the one-liner lines for each callback address) must contain that value character for character - keys notice-omits-configured-text:conf-<notice>@terminal; the client texts of the session's requests ('File requested: ', 'Sent script: ', 'connected: ID') are judged the same way under every configuration (class client-text-under-configuration).  A wording that does not appear is not an expectation (the floors per notice then fail the run); the configured prompt is not a notice: it is only counted when the raw terminal output carries it. A request the HTTP library itself turns down (400 with its own body, 431) has no notice due and is not counted as an expectation; in these three engines a wait that expires (response, attach notice, marker) is inconclusive and ends that server's cases, so that a late notice cannot fall into a later window. distinct = distinct request texts / error texts; all are non-trivial (each carries at least one '%')"
-	r.Assumptions = []string{"outside engine lit (and its share of engine term) generated text never contains '%!' itself, so every '%!' is an artefact; in engine lit a '%!' is accounted for only by a whole, unchanged occurrence of one of the case's client texts (text, Go-quoted ID), and client texts never end in '%' nor does the program's wording put a '!' or '%' next to them", "the terminal shows a notice on one line (the program does not wrap; line wrapping is the terminal emulator's business): a notice at the terminal is the text between two line ends, after the time stamp", "a response that arrived means the request's notice is already on the operator channel (handlers send it before they return), so a marker sent afterwards follows it", "only call sites a request or configuration can reach are covered", "an escape and the byte it denotes are the same client data (as for c2 parameters and callback IDs): where the URL library re-spells the authority part of an absolute-form target (%41 -> A, %2f -> %2F, ! -> %21, HTTPS -> https) the notice may show either spelling; path and query are always expected byte for byte", "a port number in a notice of a case's window that equals the client's ephemeral port quotes that connection's addresses", "engine conf: a notice names a configured value the way the operator gave it (the unchanged program prints flag values as given, without cleaning paths); configured values never end in a way that forms '%!' with the program's wording because every occurrence is replaced as a whole before the rest of the line is searched for '%!'; after the program has ended the terminal is in its ordinary echoing mode (a terminal left otherwise makes the session inconclusive, not a violation)"}
+	r.Rule = "hsrv.Server in-process on real TLS in seven configurations (directory, unset, single file, missing directory, missing/failing/unparsable template - with % sequences in the configured paths; two more with clients on an IPv6 link-local address, whose text carries a %zone); raw requests carrying printf-looking text ('%' + flags/width/precision/index/verb, '%%', URL escapes such as %20b whose raw form reads as a verb) in path, raw query, c2 parameter, c2 header, Host (also with the escapes a URL's host may carry - %25…, bytes >= 0x80 - and RFC 6874 zoned IPv6 literals), undecodable escapes, /i/{id} and /o/{id}, and refusals naming two such IDs; request-targets also in ABSOLUTE-FORM (scheme://userinfo@host/path?query with every userinfo shape - user@, user:pass@, :pass@, user:@, :@, @ - escapes and escaped verbs inside user and password, scheme/host case variants, zoned IPv6 hosts) for the file handler (echoes the target), the script handler (c2 parameter; callback taken from the target's host) and the stream handlers; after each request a marker line closes the window of operator notices, none of which may contain '%!' and one of which must contain the client text character for character (IDs also accepted in the Go-quoted form the broker prints; an absolute-form target must be there byte for byte as the harness wrote it whenever it is in the URL library's normal form - url.ParseRequestURI(t).String()==t, computed by the harness - and otherwise with its path and query byte for byte and the rest equal up to the spelling of percent-escapes and the case of the scheme). Engine broker: every refusal branch in gate mode with formatting IDs. Engine xerr (gate mode): attached shells of seven shapes (output alone, input alone with failing write / failing flush, both sides with either failing, /io with either failing) whose reader or writer - owned by the harness - fails with a *net.OpError built by the harness (Op, Net, Source, Addr with %zone such as eth0/docker0/sit0/veth…, Err = errno, syscall error or printf-looking text; also wrapped as crypto/tls does, and errors without addresses) for a client host fe80::…%zone: no notice may contain '%!', every notice starts with [client host], and a notice that reports the error (recognised by the client's port number / a token) must contain the error's text byte for byte. Engine rst (only on a machine with a link-local address): hsrv on real TLS bound to the link-local address itself and to [::], clients from the link-local address: reset (SO_LINGER 0) while the server reads /o and /io output (after a burst of output), reset or close while lines are being written to an /i or /io client that does not read (write stuck in full socket buffers), half-closes, with one or both sides attached: no '%!', [client host] prefix, callback ID verbatim, and a notice that names the client's port must contain the client's host:port as net prints it. Engine lit (in-process servers 'directory' and 'single file', notices read at the operator channel): client text that itself contains the LITERAL OUTPUT of fmt's complaints - %!s(MISSING), %!d(string=x), %!(EXTRA int=1), %!(NOVERB), %!(BADWIDTH), %!(BADPREC), %!(BADINDEX), %!v(PANIC=...), %!s(<nil>), bad verbs, nested forms, forms cut off anywhere, made-up '%!' + verb + '(word)' - mixed with ordinary verbs, in every position a client controls: raw query, path (escaped spelling), c2 parameter, c2 header, Host, the bad escape an undecodable query's error text quotes, /i/{id}, /o/{id}, and the two IDs of a refusal; every table entry is used in every position. The oracle is exact there: the notice must contain the client's text character for character, and a '%!' in a notice is an artefact unless it lies inside an occurrence of the client's own text as the client sent it (every occurrence of the case's client texts is taken out of the notice; what is left, the program's wording, must not contain '%!' - so client text that was re-formatted, shortened or 'cleaned' is both an omission and, where a '%!' is left over, an artefact). Engine huge (same servers): client text of 64 KiB ... 1,040,000 bytes (five bands: 64-200 KiB, around 256 KiB, 257-400 KiB, 513-800 KiB, 900 KiB-1,040,000 bytes; the whole request stays below net/http's header limit of 1 MiB, the unchanged program serves up to 1 MiB + 4096 bytes; a position whose escaped spelling is longer on the wire gets as much text as fits) made of printf-looking pieces and running offsets in raw query, path, c2 parameter, c2 header, Host, /i/{id} and /o/{id}: one notice of the window must carry ALL of it, byte for byte. Engine term: the classes of lit and huge and, every fourth case, an ordinary case of engine req, against the REAL PROGRAM on a pty (-serve-files-from a directory), the notices read where the operator sees them - the terminal's text after lib/opshell rendered it (escape sequences interpreted, prompt redraws removed; window closed by a request for a file named after the marker, whose 'File requested' line follows every notice of the requests answered before): same two rules, keys end in @terminal. Engine conf (the CONFIGURATION MATRIX, real program on a pty, 64 / 384 sessions): the statement's 'no notice ever contains formatter artefacts' and the quantifier's 'every call site in the tree that passes a computed string in the format position' also cover the notices that name what the OPERATOR configured, which are produced in main's wiring, lib/opshell and internal/hsrv; every valued option gets text with '%' sequences (%s %d %v %w %[1]d %*d %% %20 100% and the literal complaints %!s(MISSING), %!(EXTRA int=1), %!(NOVERB), %!v(PANIC=…), '%!') - -ctrl-i (missing / missing below a %-directory / below a regular file / empty file / file / directory), -serve-files-from (directory / single file / missing / relative / ../ spelling / symlink / blanks at the edges / empty value), -callback-template (regular / symlink / missing / unparsable / failing / a directory), -log and CURLREVSHELL_LOG (also both), -callback-address (one / two / 24 / with port), -prompt, -listen-address (host:0, host only, localhost, given twice), -tls-certificate-cache (explicit / default / next to the served files / empty) - each option alone, in pairs drawn by index and all at once, with -one-shell / -no-timestamps / -ipv6-one-liners by index, in the four flag spellings (-o v, -o=v, --o v, --o=v); every session that listens gets Tab (Ctrl+I) and Ctrl+J when it has a -ctrl-i, a script request (c2 header with verbs) when it has a template, a file request (escapes and verbs) when it serves files, and an input stream with a formatting ID, then Ctrl+D; every fourth session ends by itself: -print-ctrl-i with a source that cannot / can be converted, -log or CURLREVSHELL_LOG that cannot be opened, a -listen-address with a '%' port or '%' zone, a certificate cache below a regular file, -icanhazip without network, a switch with a '%' value, an undefined flag with '%' in its name, and -h / --help / a bad flag with the program started through a link whose name carries '%'.  The whole text of the terminal (read to its end: a sentinel typed after the program has ended is echoed behind everything written before) is judged by the two rules of engine lit: a '%!' is an artefact unless it lies inside an occurrence of a configured value (or a path component of one, or the case's client text) as it was given - keys formatter-artefact:conf-<notice>@terminal; and every line that carries the fixed wording announcing a configured value ('Warning: Ctrl+I file ', 'Error working out what to insert: ', 'Inserting ', 'Inserted ', 'Error generating Ctrl+I file: ', 'To get files from ', 'Could not open ', 'Warning: Template file ', 'Error reading template: ', 'Error opening logfile ', 'Error setting up HTTPS service: ', 'invalid boolean value ', 'flag provided but not defined: ', 'Usage: '; one of the one-liner lines for each callback address) must contain that value character for character - keys notice-omits-configured-text:conf-<notice>@terminal; the client texts of the session's requests ('File requested: ', 'Sent script: ', 'connected: ID') are judged the same way under every configuration (class client-text-under-configuration).  A wording that does not appear is not an expectation (the floors per notice then fail the run); the configured prompt is not a notice: it is only counted when the raw terminal output carries it. Engine stop (NOTICES THAT ARE STILL QUEUED WHEN THE PROGRAM STOPS; real program on a pty, 6 / 24 sessions beside the other engines, with -one-shell and -no-timestamps by index): the output side of a fake shell whose ID carries '%' text is attached, the pty is not read any more (ptyx.PauseReading) and the shell floods 260-340 chunks of 1.1-1.9 KB (0.3-0.6 MB: many times the kernel's pty buffer, fewer entries than the program's 1024-entry operator channel holds), so that the program's terminal writes block and the rest of the flood waits on the operator channel; behind it 14-21 client-text notices queue up - file requests (escapes that read as verbs, raw verbs in the query, the literal complaints of engine lit in the query), /c requests (c2 header / parameter with verbs) and /i/{id} attempts with another '%' ID, which are refused - each request answered, so its notice is on the channel; then the program is made to stop: Ctrl+D or Ctrl+C typed into the pty, or (-one-shell) the shell's input side is attached as well, which closes the listener, up to three more requests go out on connections opened beforehand, and the shell ends by itself; the harness notes whether the program is still running 1.5 s later (it cannot end while its terminal write blocks; counted and floored, no verdict depends on it), reads the pty again and collects the terminal's text up to the end of the process (sentinel as in engine conf). Judged by the two rules of engine lit / conf: a '%!' on any line is an artefact unless it lies inside an occurrence of one of the session's client texts as sent (keys formatter-artefact:<class>@stopping), and every line that carries the fixed wording announcing client text ('File requested: ', 'Sent script: ', 'Rejected ', 'connected: ID') must contain one of the session's client texts of that class character for character (IDs also in Go-quoted form; keys notice-omits-client-text:<class>@stopping). A queued notice that does not appear at all because the program stopped first is not a violation; it is counted (stop_notices_not_shown), and floors on the notices queued, shown verbatim (in all and per class), lines checked, sessions per way of stopping and sessions still running while the terminal was not read make a run that did not exercise the class inconclusive. A request the HTTP library itself turns down (400 with its own body, 431) has no notice due and is not counted as an expectation; in these three engines a wait that expires (response, attach notice, marker) is inconclusive and ends that server's cases, so that a late notice cannot fall into a later window. distinct = distinct request texts / error texts; all are non-trivial (each carries at least one '%')"
+	r.Assumptions = []string{"outside engine lit (and its share of engine term) generated text never contains '%!' itself, so every '%!' is an artefact; in engine lit a '%!' is accounted for only by a whole, unchanged occurrence of one of the case's client texts (text, Go-quoted ID), and client texts never end in '%' nor does the program's wording put a '!' or '%' next to them", "the terminal shows a notice on one line (the program does not wrap; line wrapping is the terminal emulator's business): a notice at the terminal is the text between two line ends, after the time stamp", "a response that arrived means the request's notice is already on the operator channel (handlers send it before they return), so a marker sent afterwards follows it", "only call sites a request or configuration can reach are covered", "an escape and the byte it denotes are the same client data (as for c2 parameters and callback IDs): where the URL library re-spells the authority part of an absolute-form target (%41 -> A, %2f -> %2F, ! -> %21, HTTPS -> https) the notice may show either spelling; path and query are always expected byte for byte", "a port number in a notice of a case's window that equals the client's ephemeral port quotes that connection's addresses", "engine conf: a notice names a configured value the way the operator gave it (the unchanged program prints flag values as given, without cleaning paths); configured values never end in a way that forms '%!' with the program's wording because every occurrence is replaced as a whole before the rest of the line is searched for '%!'; after the program has ended the terminal is in its ordinary echoing mode (a terminal left otherwise makes the session inconclusive, not a violation)", "engine stop: the flood (0.3 MB at least) exceeds what the kernel buffers for a pty that is not read (about 18 KB here) plus the one chunk of 32 KB the harness may still read after pausing, so the program's terminal writes block before the notices are reached - evidence, not a premise of the verdict: a notice is judged wherever and whenever the terminal shows it; the shell's flood contains no '%' and none of the notices' fixed wordings; a request that was answered has its notice on the operator channel (as above), which requires the channel not to be full - a request that is not answered while the terminal is not read makes the session inconclusive"}
 	cfgs := makeConfigs(r.Work)
 	// the engines added later run next to the others: term (the real program on a pty), lit and huge (in-process)
 	var side sync.WaitGroup
 	for _, e := range []struct {
 		name string
 		f    func(*mon.Run)
-	}{{"term", termEngine}, {"conf", confEngine}, {"huge", hugeEngine}, {"lit", litEngine}} {
+	}{{"term", termEngine}, {"conf", confEngine}, {"stop", stopEngine}, {"huge", hugeEngine}, {"lit", litEngine}} {
 		if r.WantEngine(e.name) {
 			side.Add(1)
 			go func() { defer side.Done(); e.f(r); r.Logf("engine %s done", e.name) }()
